@@ -145,29 +145,147 @@ def check(prog, rep):
                         lazy.append((fi, n, t.value.id, attr))
                         producers.setdefault(attr, []).extend(_producer_roots(prog, cg, fi, n.value))
     total_reach = 0
+    tainted_memo = {}
+
+    def direct_reads(f):
+        out = []
+        for n in walk_local(f.node, include_self=False):
+            if isinstance(n, ast.Attribute) and isinstance(n.ctx, ast.Load) and n.attr in mutable_var_attrs:
+                recvd = dotted(n.value) or src(n.value)
+                owner = cg.owner_class(f)
+                if recvd == "self" and owner is not None and owner.name != "Variable":
+                    continue
+                if _receiver_is_container(prog, f, n):
+                    continue
+                out.append(n)
+        return out
+
+    def func_reads(f):
+        """All (function, node) mutable-state reads reachable from f."""
+        if f.qual not in tainted_memo:
+            acc = []
+            for g in cg.reachable([f]):
+                acc += [(g, n) for n in direct_reads(g)]
+            tainted_memo[f.qual] = acc
+        return tainted_memo[f.qual]
+
+    def expr_reads(f, e, tainted_names):
+        out = []
+        for n in ast.walk(e):
+            if isinstance(n, ast.Attribute) and isinstance(n.ctx, ast.Load) and n.attr in mutable_var_attrs and n in direct_reads(f):
+                out.append((f, n))
+            if isinstance(n, ast.Name) and n.id in tainted_names:
+                out += tainted_names[n.id]
+            if isinstance(n, ast.Call):
+                tg = []
+                if isinstance(n.func, ast.Name):
+                    tg = cg.resolve_name(f, n.func.id) or []
+                elif isinstance(n.func, ast.Attribute):
+                    recv = dotted(n.func.value)
+                    owner = cg.owner_class(f)
+                    if recv == "self" and owner is not None:
+                        m = prog.lookup_method(owner.name, n.func.attr)
+                        tg = [m] if m else []
+                    else:
+                        tg = cg.by_name.get(n.func.attr, [])
+                for t in tg:
+                    out += func_reads(t)
+        return out
+
+    def name_taint(f):
+        """local name -> reads flowing into it (fixpoint over assignments / appends)."""
+        tn = {}
+        for _ in range(6):
+            changed = False
+            for n in walk_local(f.node, include_self=False):
+                pairs = []
+                if isinstance(n, ast.Assign):
+                    for t in n.targets:
+                        for nm in [x.id for x in ast.walk(t) if isinstance(x, ast.Name) and isinstance(x.ctx, ast.Store)]:
+                            pairs.append((nm, n.value))
+                elif isinstance(n, (ast.AugAssign, ast.AnnAssign)) and isinstance(n.target, ast.Name) and n.value is not None:
+                    pairs.append((n.target.id, n.value))
+                elif isinstance(n, ast.Call) and isinstance(n.func, ast.Attribute) and n.func.attr in MUTATING_METHODS and isinstance(n.func.value, ast.Name):
+                    for a_ in n.args:
+                        pairs.append((n.func.value.id, a_))
+                elif isinstance(n, ast.For):
+                    for nm in [x.id for x in ast.walk(n.target) if isinstance(x, ast.Name)]:
+                        pairs.append((nm, n.iter))
+                for nm, val in pairs:
+                    r = expr_reads(f, val, tn)
+                    if r and len(tn.get(nm, [])) < len(set(map(id, [x[1] for x in r])) | set(map(id, [x[1] for x in tn.get(nm, [])]))):
+                        cur = {id(x[1]): x for x in tn.get(nm, [])}
+                        for x in r:
+                            cur[id(x[1])] = x
+                        tn[nm] = list(cur.values())
+                        changed = True
+            if not changed:
+                break
+        return tn
+
+    def fields_of(f):
+        """field -> expression for the value a producer returns; {'*': None} when it is not a record/dict."""
+        rets = [n for n in walk_local(f.node, include_self=False) if isinstance(n, ast.Return) and n.value is not None]
+        out = {}
+        for r in rets:
+            v = r.value
+            if isinstance(v, ast.Call) and v.keywords and not v.args and isinstance(v.func, ast.Name) and v.func.id in prog.classes:
+                for kw in v.keywords:
+                    if kw.arg:
+                        out[kw.arg] = kw.value
+            elif isinstance(v, ast.Name):
+                stores = [n for n in walk_local(f.node, include_self=False) if isinstance(n, ast.Assign) and isinstance(n.targets[0], ast.Subscript) and isinstance(n.targets[0].value, ast.Name) and n.targets[0].value.id == v.id and isinstance(n.targets[0].slice, ast.Constant)]
+                for st in stores:
+                    out[st.targets[0].slice.value] = st.value
+        return out or {"*": None}
+
+    def consumers_read(attr, fld):
+        for f2 in prog.functions.values():
+            recv = problem_receivers(f2)
+            if not recv:
+                continue
+            asg = local_assignments(f2.node)
+            alias = {nm for nm, vals in asg.items() for v in vals if isinstance(v, ast.Attribute) and dotted(v.value) in recv and v.attr == attr}
+            for n in walk_local(f2.node, include_self=False):
+                if isinstance(n, ast.Attribute) and isinstance(n.ctx, ast.Load) and n.attr == fld and isinstance(n.value, ast.Name) and n.value.id in alias:
+                    return f2, n
+                if isinstance(n, ast.Subscript) and isinstance(n.ctx, ast.Load) and isinstance(n.value, ast.Name) and n.value.id in alias and isinstance(n.slice, ast.Constant) and n.slice.value == fld:
+                    return f2, n
+        return None
+
     for a, roots in sorted(producers.items()):
         uniq = {r.qual: r for r in roots}
         reach = cg.reachable(list(uniq.values()))
         total_reach += len(reach)
         rep.saw(f"producers of Problem.{a}", sorted(uniq))
-        for f in reach:
-            for n in walk_local(f.node, include_self=False):
-                if isinstance(n, ast.Attribute) and isinstance(n.ctx, ast.Load) and n.attr in mutable_var_attrs:
+        nfound = 0
+        for root in uniq.values():
+            flds = fields_of(root)
+            tn = name_taint(root)
+            for fld, e in sorted(flds.items(), key=lambda kv: str(kv[0])):
+                reads = func_reads(root) if e is None else expr_reads(root, e, tn)
+                if not reads:
+                    continue
+                used = ("*", None) if fld == "*" else consumers_read(a, fld)
+                seen_keys = set()
+                for f, n in reads:
                     recvd = dotted(n.value) or src(n.value)
-                    # reads of an object's *own* attribute inside container classes (VectorVariable.lb ...) are
-                    # reads of a different object; only Variable-typed receivers matter.
-                    owner = cg.owner_class(f)
-                    if recvd == "self" and owner is not None and owner.name != "Variable":
+                    key = (f.qual, n.attr)
+                    if key in seen_keys:
                         continue
-                    if _receiver_is_container(prog, f, n):
+                    seen_keys.add(key)
+                    if used is None:
+                        rep.ob("R13.3", f.qual.split(":")[1], True, f"reads {recvd}.{n.attr} into field {fld!r} of the value cached in Problem.{a}, but no solver path reads that field back from the cache (it is recomputed per solve)", loc=f"{f.module.rel}:{n.lineno}", detail=f"{a}.{fld}<-{n.attr}:unused")
                         continue
+                    nfound += 1
                     rep.ob(
                         "R13.3", f.qual.split(":")[1], False,
-                        f"reads {recvd}.{n.attr} while producing the value cached in Problem.{a}; "
-                        f"Variable.{n.attr} is a public mutable slot, so a later change is ignored by the cache",
+                        f"reads {recvd}.{n.attr} while producing " + (f"field {fld!r} of " if fld != "*" else "") + f"the value cached in Problem.{a}"
+                        + (f", which {used[0].name} reads back from the cache" if fld != "*" else "")
+                        + f"; Variable.{n.attr} is a public mutable slot, so a later change is ignored by the cache",
                         loc=f"{f.module.rel}:{n.lineno}", detail=f"{a}<-{n.attr}",
                     )
-        rep.ob("R13.3", f"Problem.{a}", True, f"{len(reach)} functions reachable from the producers of Problem.{a} scanned for reads of Variable.{{{', '.join(sorted(mutable_var_attrs))}}}", loc=None, detail="scan")
+        rep.ob("R13.3", f"Problem.{a}", True, f"{len(reach)} functions reachable from the producers of Problem.{a} scanned for reads of Variable.{{{', '.join(sorted(mutable_var_attrs))}}} flowing into a consumed part of the cached value", loc=None, detail="scan")
     rep.saw("functions reachable from cache producers", total_reach)
 
     # ---- R13.4 lazy entries are inserted into the current cache object
